@@ -628,6 +628,12 @@ Lemma gen_path : assoc "PathLike" encode_table_gen = Some EFspath. Proof. vm_com
 Lemma gen_list : assoc "list" encode_table_gen = Some ESeq. Proof. vm_compute. reflexivity. Qed.
 Lemma gen_tuple : assoc "tuple" encode_table_gen = Some ESeq. Proof. vm_compute. reflexivity. Qed.
 Lemma gen_wiring : wiring_gen = W_EXPECTED. Proof. reflexivity. Qed.
+
+(* get_arg_options still gives every kind of field the type= / action= that Model/Leaf.v's arg_options (reused here for the converter a
+   str default is passed through) mirrors *)
+Lemma gen_arg_types : arg_type_rules_gen =
+  [("self.is_choice", ["_arg_options['type'] = item_type"]); ("utils.is_optional(self.type) or self.field.default is None", ["_arg_options['type'] = get_parsing_fn(wrapped_type)"; "_arg_options['type'] = utils.get_argparse_type_for_container(wrapped_type)"; "_arg_options['type'] = get_parsing_fn(wrapped_type)"]); ("self.is_union", ["_arg_options['type'] = get_parsing_fn(self.type)"]); ("self.is_enum", ["_arg_options['type'] = str"]); ("self.is_list", ["_arg_options['type'] = type_fn"; "_arg_options['type'] = utils.get_argparse_type_for_container(self.type)"]); ("utils.is_tuple(self.type)", ["_arg_options['type'] = get_parsing_fn(self.type)"; "_arg_options['type'] = type_fn"]); ("utils.is_bool(self.type)", ["_arg_options['type'] = utils.str2bool"; "_arg_options['action'] = BooleanOptionalAction"]); ("else", ["_arg_options['type'] = self.custom_arg_options.get('type', get_parsing_fn(self.type))"])].
+Proof. reflexivity. Qed.
 Lemma gen_exts : forall sfx, str_in sfx four_suffixes = true ->
   assoc sfx extensions_gen = Some CJson \/ assoc sfx extensions_gen = Some CYaml \/ assoc sfx extensions_gen = Some CPickle.
 Proof.
